@@ -245,6 +245,33 @@ def check_complex_domain(F, run, roots):
     run.floor("R14.7", dp, "partial-function sites", n, 2, F.loc(roots))
 
 
+def check_make_complex(F, run):
+    """R14.8 — the general branch works on `make_complex()` copies and deflates them with `divide`, which trims against the polynomial's zero
+    tolerance: the complex copy must carry the coefficients *and the tolerance* of the original (a copy that falls back to the default 1e-10
+    silently drops small leading coefficients, e.g. 1/14! of L_14, at every deflation)."""
+    mc = PI.poly_method(F, "make_complex")
+    run.analysed(mc)
+    dp = "Polynomial::make_complex"
+    T = sp.Symbol("tolP", positive=True)
+    for n in (1, 3):
+        a = PI.symbols("a", n)
+        try:
+            v, _ = PI.call(F, mc, [PI.poly(a, T)])
+        except (sym.Unsupported, vecint.IndexPanic) as e:
+            run.broken("R14.8", dp, "len=%d" % n, F.loc(mc), str(e))
+            continue
+        ok = isinstance(v, dict) or hasattr(v, "get")
+        try:
+            cs = PI.coeffs(v)
+        except Missing:
+            run.fail("R14.8", dp, "result:len=%d" % n, F.loc(mc), "make_complex does not return a polynomial")
+            continue
+        run.check(PI.same_poly(cs, a) and len(cs) == n, "R14.8", dp, "same-coefficients:len=%d" % n, F.loc(mc), "make_complex changes the coefficients: %s" % cs)
+        run.check(v.get("tolerance") == T, "R14.8", dp, "keeps-tolerance:len=%d" % n, F.loc(mc),
+                  "the complex copy has zero tolerance %s instead of the original's: deflation inside `roots` then trims with the wrong tolerance" % v.get("tolerance"),
+                  sample="make_complex keeps (coefficients, tolerance)")
+
+
 def check_laguerre_step(F, run, roots):
     dp = "Polynomial::roots"
     loops = [n for n in walk(roots["body"]) if n.get("k") == "While" and any(x.get("k") == "MCall" and x["name"] == "evaluate_derivative" for x in walk(n["body"]))]
@@ -421,6 +448,7 @@ def run(F, run, tier):
     check_guards(F, run, roots)
     check_laguerre_step(F, run, roots)
     check_complex_domain(F, run, roots)
+    check_make_complex(F, run)
     check_zeros(F, run, tier)
     run.assumptions += ["the Laguerre iteration is abstracted to 'a value G was found' and Newton polishing is uninterpreted: that they deliver *the* roots, one-to-one and accurately, "
                         "is numerical and not decided", "exact arithmetic, generic coefficients"]
